@@ -431,7 +431,7 @@ func (s *solo) recipeRelockStalePolka() string {
 	r3 := r2 + 1
 	if g := net.ProposerAt(nd, r3); net.IsFaulty[g] {
 		if kb := net.ByzBlock(nd, g, r3, 23, ""); kb != nil {
-			net.Send(g, s.me, net.ProposalMsgs(g, kb, h, r3, -1)...)
+			net.Send(g, s.me, net.ProposalMsgs(g, kb, h, r3, net.ForgedPOL(r0, r3))...)
 		}
 	}
 	s.deliverAllToMe()
